@@ -81,10 +81,13 @@ class NoDNSPythonResolver(Resolver):
 
 class MonitorTask(ItemTask):
     """Inserted at the head of the download pipeline's task list: makes the queue item visible to the transport."""
+    seq = 0
 
     @asyncio.coroutine
     def process(self, item_session):
         item_session._verif_start = asyncio.get_event_loop().time()
+        MonitorTask.seq += 1
+        item_session._verif_run = MonitorTask.seq          # one number per run of an item through the pipeline
         ctx_item.set(item_session)
 
 
@@ -120,7 +123,7 @@ class CrawlServer:
             ur = ctx.url_record
             rec = {'url': ur.url, 'level': ur.level, 'inline_level': ur.inline_level, 'parent_url': ur.parent_url,
                    'root_url': ur.root_url, 'try_count': ur.try_count, 'link_type': ur.link_type.value if ur.link_type else None,
-                   'item_start': getattr(ctx, '_verif_start', None)}
+                   'item_start': getattr(ctx, '_verif_start', None), 'item_run': getattr(ctx, '_verif_run', None)}
         entry = {'t': h.loop.time(), 'origin': origin.key(), 'target': target, 'url': url, 'method': method, 'rec': rec,
                  'conn': conn.id, 'fields': fields, 'n': len(self.log)}
         self.log.append(entry)
